@@ -70,6 +70,7 @@ type Eval struct {
 	NDisabled   int
 	NStaticNull int
 	NNested     int
+	NNestedEmpty int // a map call inside a map-called pipeline whose own source was empty or null for some outer element
 	NMapped     int
 	NEmptyMap   int
 	NNarrow     int
@@ -588,6 +589,9 @@ func (e *Eval) evalCall(c *CallDef, sc *scope) *TV {
 		ks, els, isNull := e.elements(src)
 		if isNull {
 			e.NEmptyMap++
+			if sc.mapKind != 0 {
+				e.NNestedEmpty++
+			}
 			e.EmptyMapped = append(e.EmptyMapped, strings.TrimPrefix(sc.path+"/"+c.Id, "/"))
 			return absentTV(Ty{Base: "@" + c.Callee, Dims: string(k)}, unionDeps(src.allDeps(), ddeps...))
 		}
@@ -619,6 +623,9 @@ func (e *Eval) evalCall(c *CallDef, sc *scope) *TV {
 	rt := Ty{Base: "@" + c.Callee, Dims: string(kind)}
 	if len(keys) == 0 {
 		e.NEmptyMap++
+		if sc.mapKind != 0 {
+			e.NNestedEmpty++
+		}
 		e.EmptyMapped = append(e.EmptyMapped, strings.TrimPrefix(sc.path+"/"+c.Id, "/"))
 		return absentTV(rt, unionDeps(srcDeps, ddeps...))
 	}
